@@ -269,3 +269,14 @@ def run(ctx):
 
     for construct, ok, msg, rel_, line in hash_purity_obligations(repo):
         r7.check(ok, construct, msg, rel_, line)
+
+    # ---- C18.8 expression hashes are not served from ==-keyed memos ---------------------------------------
+    r8 = ctx.rule("C18.8", "no hash function (or a same-module helper it calls) is memoised by a cache keyed with ==", floor=10)
+    from ..flow import memoised_callee_obligations
+
+    for construct, ok, msg, rel_, line in memoised_callee_obligations(
+        repo,
+        ("redun/value.py", "redun/task.py", "redun/expression.py", "redun/hashing.py", "redun/scheduler.py"),
+        lambda leaf: leaf in ("get_hash", "_calc_hash") or leaf.startswith("hash_"),
+    ):
+        r8.check(ok, construct, msg, rel_, line)
